@@ -368,10 +368,10 @@ func (ex *Exec) specCall(sc *Scope, e *ast.CallExpr) Val {
 			return Bool{smt.Forall([][2]string{{bn, "Int"}}, smt.Imp(rng, body))}
 		}
 		return Bool{smt.Exists([][2]string{{bn, "Int"}}, smt.And(rng, body))}
-	case "forall_str":
+	case "forall_str", "forall_ref":
 		id, ok := e.Args[0].(*ast.Ident)
 		if !ok {
-			specErr(e, "forall_str: first argument must be an identifier")
+			specErr(e, "%s: first argument must be an identifier", fname)
 		}
 		bn := ex.boundName(id.Name)
 		n := *sc
@@ -379,15 +379,25 @@ func (ex *Exec) specCall(sc *Scope, e *ast.CallExpr) Val {
 		for k, v := range sc.Bound {
 			n.Bound[k] = v
 		}
-		n.Bound[id.Name] = Str{bn}
+		srt := "Str"
+		if fname == "forall_ref" {
+			srt = "Ref"
+			n.Bound[id.Name] = Iface{Ref: bn}
+		} else {
+			n.Bound[id.Name] = Str{bn}
+		}
 		body := ex.evalSpec(&n, e.Args[1]).(Bool).T
-		return Bool{smt.Forall([][2]string{{bn, "Str"}}, body)}
+		return Bool{smt.Forall([][2]string{{bn, srt}}, body)}
 	case "mem":
 		s, ok := arg(0).(Slice)
 		if !ok {
 			specErr(e, "mem: first argument must be a slice, got %T", arg(0))
 		}
-		return Bool{ex.Mem(s, term(arg(1)))}
+		x := arg(1)
+		if r, ok := ex.refOf(sc.St, x); ok {
+			return Bool{ex.Mem(s, r)}
+		}
+		return Bool{ex.Mem(s, term(x))}
 	case "has":
 		m, ok := arg(0).(Map)
 		if !ok {
